@@ -203,6 +203,99 @@ func runWriterInterleavings(r *hk.Run, rng *hk.Rand) {
 	}
 }
 
+// failWriter: a stream whose k-th Write fails (its send side was reset: the request was given up
+// between opening the stream and writing the header), after taking the first `take` bytes of it
+type failWriter struct {
+	b       []byte
+	k, n    int
+	take    int
+	written int
+}
+
+func (f *failWriter) Write(p []byte) (int, error) {
+	f.n++
+	if f.n == f.k {
+		t := f.take
+		if t > len(p) {
+			t = len(p)
+		}
+		f.b = append(f.b, p[:t]...)
+		return t, errInjected
+	}
+	f.b = append(f.b, p...)
+	return len(p), nil
+}
+
+// sequences on ONE HTTP/3 request writer in which the stream of some requests fails while the
+// HEADERS frame is written: the requests after it must carry exactly their own fields
+func runWriterFaults(r *hk.Run, rng *hk.Rand) {
+	n := r.Scale(30, 900)
+	for i := 0; i < n; i++ {
+		base := genScenario(rng, 3, i)
+		base.Method, base.BodyLen = hk.Pick(rng, []string{"GET", "GET", "POST", "DELETE"}), 0
+		m := rng.Range(3, 6)
+		type step struct {
+			Sc     scenario `json:"sc"`
+			FailAt int      `json:"stream_write_fails_at,omitempty"` // 0: the stream takes everything
+			Take   int      `json:"bytes_taken_before,omitempty"`
+		}
+		var steps []step
+		cur := base
+		for j := 0; j < m; j++ {
+			st := step{Sc: cur}
+			if j < m-1 && rng.Chance(45) {
+				st.FailAt = rng.Range(1, 2)
+				st.Take = hk.Pick(rng, []int{0, 0, 1, 3, 50})
+			}
+			steps = append(steps, st)
+			cur.Req = perturb(rng, cur.Req)
+			if rng.Chance(25) {
+				cur.ReqOrder, _ = genOrder(rng, lowerNames(cur.Req))
+			}
+		}
+		w := fh3.VerifNewRequestWriter()
+		cell := map[string]interface{}{"kind": "h3-writer-faults", "steps": steps}
+		r.Count("conc.h3writer.fault-sequence")
+		prev := "first request on the writer"
+		for j, st := range steps {
+			rq, capt, gz := transportRequest(st.Sc, fmt.Sprintf("f%d-%d", i, j))
+			if st.FailAt > 0 {
+				fw := &failWriter{k: st.FailAt, take: st.Take}
+				err := w.WriteHeaders(fw, rq, gz)
+				if err == nil {
+					r.Count("conc.h3writer.fault-not-reached") // a single Write, and the fault was armed for the second
+					if fields, derr := decodeHeadersFrame(fw.b); derr == nil {
+						withCtx("conc", fmt.Sprintf("request %d of a sequence on one HTTP/3 request writer, %s", j, prev), cell,
+							func() { oracle(r, st.Sc, origin.Obs{Proto: 3, Fields: fields}) })
+					}
+					prev = "after a request that was written"
+				} else {
+					r.Count("conc.h3writer.fault")
+					prev = fmt.Sprintf("after a request whose stream failed in Write %d", st.FailAt)
+				}
+				continue
+			}
+			var out collector
+			if err := w.WriteHeaders(&out, rq, gz); err != nil {
+				r.Fail(hk.Failure{Sig: "conc:h3writer:sequence:error", What: fmt.Sprintf("request %d (%s): writing the header failed: %v", j, prev, err), Input: cell})
+				prev = "after a request that failed"
+				continue
+			}
+			fields, err := decodeHeadersFrame(out.b)
+			if err != nil {
+				r.Fail(hk.Failure{Sig: "conc:h3writer:sequence:frame-corrupted", What: fmt.Sprintf("request %d (%s): %v", j, prev, err), Input: cell})
+				prev = "after a request that was written"
+				continue
+			}
+			withCtx("conc", fmt.Sprintf("request %d of a sequence on one HTTP/3 request writer, %s", j, prev), cell,
+				func() { oracle(r, st.Sc, origin.Obs{Proto: 3, Fields: fields}) })
+			r.Add(hk.Case{Coq: fmt.Sprintf("WireCase 3 %s %s", coqCreq(capt, st.Sc), coqLines(fields)),
+				Desc: map[string]interface{}{"kind": "h3-writer-faults", "cell": cell, "request": j, "wire": fields}}, fmt.Sprintf("h3wf|%d|%d|%+v", i, j, st.Sc), true)
+			prev = "after a request that was written"
+		}
+	}
+}
+
 // bursts: several requests in flight at once through one client (one connection)
 func runBursts(r *hk.Run, rng *hk.Rand) {
 	for _, pr := range []struct {
